@@ -762,6 +762,9 @@ func randomBatch(r *rand.Rand, id int, seed int64, maxInv int, dup bool) *Batch 
 			b.Handlers[a] = "fail"
 		case 2:
 			b.Handlers[a] = []string{"okfx", "okjoin", "okfxjoin", "okfxinv"}[(id+len(a))%4]
+		case 4:
+			// a second rotation, so that a batch often has handlers returning different shapes of effects
+			b.Handlers[a] = []string{"okjoin", "okfxinv", "ok", "okfxjoin", "okfx"}[(id/2+len(a))%5]
 		default:
 			b.Handlers[a] = "ok"
 		}
